@@ -205,8 +205,23 @@ def c13Verdict (db : V) (encB : List UInt8) (gz : String) : Option String :=
         | none => if gz != "ok" then some s!"VIOL clause=lt.gzip got={gz}" else none
       | _ => some "SKIP reason=marshal-unmodelled"
 
-/-- C01 on the implementation's own encode → decode → encode (representable domain only) -/
-def c01Verdict (inDomain : Bool) (db : V) (decS enc2S gz cp : String) : Option String :=
+/-- the recorded re-encoding finding explains a differing second encoding only if that second
+    encoding is exactly what the model of the code (defect included) predicts from the first one;
+    anything else is a different violation, even in a database that also has such a field -/
+def reencodeVerdict (db : V) (encB : List UInt8) (enc2S : String) : String :=
+  let dbT : LtType := .named "DB"
+  let predicted : Option (List UInt8) :=
+    match decodeDoc genSchema Gen.LT.cp1252 encB with
+    | .ok d => (match encodeDoc genSchema d with
+        | .ok chars => some (chars.flatMap utf8Enc)
+        | _ => none)
+    | _ => none
+  if roundsToZero Spec.schema dbT false db && predicted.isSome && predicted == bytesOfHex enc2S then
+    "VIOL clause=lt.reencode tag=omitempty-rounds-to-zero"
+  else "VIOL clause=lt.reencode"
+
+/-- C01 on the implementation's own encode → decode → encode -/
+def c01Verdict (inDomain : Bool) (db : V) (encB : List UInt8) (decS enc2S gz cp : String) : Option String :=
   let dbT : LtType := .named "DB"
   if !inDomain then
     -- values beyond the format's precision: "the same up to the stated precision" is not compared
@@ -216,7 +231,7 @@ def c01Verdict (inDomain : Bool) (db : V) (decS enc2S gz cp : String) : Option S
      | none => none
      | some _ =>
        if decS != "err" && enc2S != "same" && enc2S != "err" && enc2S != "-" then
-         some (if roundsToZero Spec.schema dbT false db then "VIOL clause=lt.reencode tag=omitempty-rounds-to-zero" else "VIOL clause=lt.reencode")
+         some (reencodeVerdict db encB enc2S)
        else none)
   else
   match Spec.quant Spec.schema 64 dbT db with
@@ -224,8 +239,7 @@ def c01Verdict (inDomain : Bool) (db : V) (decS enc2S gz cp : String) : Option S
   | some q =>
     if decS == "err" then some "VIOL clause=lt.decode_own"
     else if negZeroAsZero decS != negZeroAsZero (dumpV q) then some "VIOL clause=lt.roundtrip"
-    else if enc2S != "same" then
-      some (if roundsToZero Spec.schema dbT false db then "VIOL clause=lt.reencode tag=omitempty-rounds-to-zero" else "VIOL clause=lt.reencode")
+    else if enc2S != "same" then some (reencodeVerdict db encB enc2S)
     else if cp == "differs" ∨ cp == "err" then some "VIOL clause=lt.cp1252"
     else if gz != "ok" then some s!"VIOL clause=lt.gzip_rt got={gz}"
     else none
@@ -241,7 +255,7 @@ def handleRt (toks impl : List String) : String :=
       | some encB, some decS, some enc2S, some gz, some cp =>
         let inDomain := dflag == "D=1"
         let v13 := c13Verdict db encB gz
-        let v01 := c01Verdict inDomain db decS enc2S gz cp
+        let v01 := c01Verdict inDomain db encB decS enc2S gz cp
         -- the property the run serves reports its own clauses first
         -- every document an encoder writes: also the second one
         let again := (field impl "again").getD "same"
